@@ -27,6 +27,9 @@ type c20Case struct {
 
 type rng struct{ start, end int }
 
+// iteration counts far beyond the enumerated grid (around powers of two and of ten, up to 2^62)
+var c20LargeN = []int{4096, 65536, 1000000, 1 << 24, 1<<31 - 1, 1 << 31, 1 << 32, 1<<32 + 4099, 1 << 40, 1<<53 + 1, 1 << 62}
+
 func evalC20(c c20Case, rec *hx.Rec) error {
 	var mu sync.Mutex
 	var ranges []rng
@@ -112,6 +115,10 @@ var c20Part = hx.NewPart("C20", "split", func(t *rapid.T) c20Case {
 		c.N = rapid.IntRange(0, 40).Draw(t, "n_small")
 		c.M = rapid.IntRange(0, 40).Draw(t, "m_small")
 	}
+	if rapid.IntRange(0, 7).Draw(t, "large") == 0 { // sizes far beyond the grid: the check only looks at the ranges, so n is free
+		c.N = c20LargeN[rapid.IntRange(0, len(c20LargeN)-1).Draw(t, "n_large")] + rapid.IntRange(-2, 2).Draw(t, "n_delta")
+		c.M = rapid.SampledFrom([]int{0, 1, 2, 3, 7, 15, 16, 17, 64, 255, 256, 257, 1000, 4099}).Draw(t, "m_large")
+	}
 	c.Delays = rapid.SliceOfN(rapid.IntRange(0, 3), 0, 8).Draw(t, "delays")
 	return c
 }, func(c c20Case, rec *hx.Rec) error {
@@ -122,6 +129,9 @@ var c20Part = hx.NewPart("C20", "split", func(t *rapid.T) c20Case {
 	}
 	if len(c.Delays) > 0 {
 		rec.Label("with_delays")
+	}
+	if c.N > 2048 {
+		rec.Label("n>2048")
 	}
 	if c.M == 0 {
 		rec.Label("default_m")
@@ -194,6 +204,13 @@ outer:
 		s.Rec.Extra("exhaustive_subdomain", "all (n, m) with n in 0..2048, m in 1..300, plus the default worker limit for every n")
 	} else {
 		s.Rec.Extra("exhaustive_subdomain", "all (n, m) with n in 0..2048, m in 1..300, plus the default worker limit for every n")
+	}
+	for i, n := range c20LargeN { // forced: every large size with a small, a non-dividing and a huge worker limit
+		for j, m := range []int{0, 1, 3, 16, 17, 257, 4099} {
+			if hx.Sharded(i*7 + j) {
+				c20Part.EvalCase(s, c20Case{N: n + j - 3, M: m})
+			}
+		}
 	}
 	c20Part.Run(s, hx.PerShard(hx.Pick(8000, 160000)))
 }
